@@ -102,6 +102,32 @@ impl Prop for C05 {
             ));
         }
         f.push(Family::new(
+            "detached-sign-and-fine-amounts",
+            Mode::Full,
+            "(a) a percentage behind a detached sign ('200 + - 10%', '200 - - 10%', '$200 + - 10%', '200 - + 10%'): the sign negates the percentage; (b) 'A is p% of what' and 'A is what % of B' for money amounts with three significant fraction digits ('1,125 kwd', '0,375 bhd', '2,004 omr', '$0,125', '0,005 usd') and p in [50, 25, 10]",
+            move |ch| {
+                if ch.flag() {
+                    let (xt, xv, cur) = *ch.pick(&[("200", 200.0, None), ("$200", 200.0, Some("USD")), ("1.000 try", 1000.0, Some("TRY")), ("0,5", 0.5, None)]);
+                    let (pt, pv) = *ch.pick(&[("10%", 10.0), ("%5", 5.0), ("12,5%", 12.5)]);
+                    let (ops, sign) = *ch.pick(&[("+ -", -1.0), ("- -", 1.0), ("- +", -1.0), ("+ +", 1.0)]);
+                    let want = xv + sign * xv / 100.0 * pv;
+                    let val = match cur {
+                        Some(c) => Val::Money(want, c.to_string()),
+                        None => Val::Number(want, Base::Dec),
+                    };
+                    Some(LineCase::new(format!("{} {} {}", xt, ops, pt), Expect::Value(val, 1e-9), "detached sign"))
+                } else {
+                    let (at, av, cur) = *ch.pick(&[("1,125 kwd", 1.125, "KWD"), ("0,375 bhd", 0.375, "BHD"), ("2,004 omr", 2.004, "OMR"), ("$0,125", 0.125, "USD"), ("0,005 usd", 0.005, "USD")]);
+                    let (pt, pv) = *ch.pick(&[("50%", 50.0), ("%25", 25.0), ("10%", 10.0)]);
+                    if ch.flag() {
+                        Some(LineCase::new(format!("{} is {} of what", at, pt), Expect::Value(Val::Money(100.0 * av / pv, cur.to_string()), 1e-9), "fine amount"))
+                    } else {
+                        Some(LineCase::new(format!("{} is what % of {}", at, at), Expect::Value(Val::Percent(100.0), 1e-9), "fine amount"))
+                    }
+                }
+            },
+        ));
+        f.push(Family::new(
             "grouped-percentages",
             Mode::Full,
             "percentages of 1000 and more written with the thousands separator and without a fraction ('1.000%', '%2.500', '-1.000%', '1.000.000%', also '1.234,5%'): the 8 phrase forms over X in [200, 0,5, 80 eur, $40] x both percent spellings",
